@@ -120,9 +120,17 @@ func (p MkLineParser) matchVarassign(line *Line, text string, splitResult *mkLin
 	}
 	op := NewMkOperator(lexer.Since(opStart))
 
-	if line.IsMultiline() && !contains(line.raw[0].Orig(), "=") {
-		// The operator is in a continuation line; not worth the trouble.
-		return false, nil
+	if line.IsMultiline() {
+		// Searching the first line for "=" is not enough since the
+		// variable name may contain it as well, as in VAR.${PARAM:S,=,,}.
+		// The first physical line, without the continuation backslash,
+		// is a prefix of the text of the logical line.
+		upToOp := p.getRawValueAlign(text, condStr(commented, "#", "")+lexer.Since(mainStart))
+		firstLine := rtrimHspace(strings.TrimSuffix(line.raw[0].Orig(), "\\"))
+		if len(upToOp) > len(firstLine) {
+			// The operator is in a continuation line; not worth the trouble.
+			return false, nil
+		}
 	}
 
 	if hasSuffix(varname, "+") && op == opAssign && spaceAfterVarname == "" {
